@@ -54,7 +54,11 @@ def market_history(seed, max_events=40, tick=1.0, prices=(8, 12), offgrid=False,
                 p = rng.randint(*prices)        # a Python int as limit price (users pass ints): off the grid for ticks such as 2.5
             elif offgrid and not mkt and rng.random() < 0.15:
                 p = rng.choice([0.25, 0.75, 1.5, 2.0 ** -20, 10 - 2.0 ** -36, 10 + 2.0 ** -36]) * tick      # below the first grid level, and a hair off a level
-            o = Order(agent_id=rng.randint(0, 2), market_id=0, is_buy=rng.random() < 0.5, kind=MARKET_ORDER if mkt else LIMIT_ORDER,
+            side = rng.random() < 0.5
+            if seed % 11 == 5:
+                import numpy as _np
+                side = _np.bool_(side)          # agents that compare numpy values hand in a numpy.bool_ as side flag: truthy / falsy like a bool, but not the object `True`
+            o = Order(agent_id=rng.randint(0, 2), market_id=0, is_buy=side, kind=MARKET_ORDER if mkt else LIMIT_ORDER,
                       volume=rng.randint(1, 3), price=p, ttl=rng.choice([None, 1, 2, 3]))
             ev = ("add", o.is_buy, p, o.volume, o.ttl)
             events.append(ev)
